@@ -100,6 +100,17 @@ class Drive402:
 
     tick = read_status
 
+    # ---- things that happen to a drive on its own
+    def fault(self):
+        """An internal fault: transition 13 from any state (the reaction ends in FAULT by transition 14)."""
+        if self.state not in (FRA, FAULT):
+            self._goto(FRA, 13)
+
+    def power_cycle(self):
+        """Supply lost and restored: the drive restarts in NOT READY TO SWITCH ON and has forgotten the controlword."""
+        self.last_cw = 0
+        self._goto(NRTSO, 0)
+
     # ---- commands
     def write_controlword(self, cw):
         self.controlwords.append(cw)
